@@ -422,7 +422,7 @@ func init() {
 	harness.Register(&harness.Check{
 		ID:    "C16",
 		Level: "fault_enumeration",
-		Rule: "source lists of 1,2,3,5,127,128,129,256,257,300 sources (cycled) with optional 1/2/130 bases; failing subset in {none, one, first, last, all-but-one, a whole 128-chunk, all, random} x failure kind per source in {Fetcher error, structurally invalid profile, missing file, HTTP 404, HTTP 500, garbage body}; every fetch blocks at a gate and the controller releases the members of each concurrently fetched chunk one by one in a seed-chosen permutation (completion order forced exactly, no sleeps; arrival/release/completion events recorded); 3-6 different completion orders per case. " +
+		Rule: "source lists of 1,2,3,5,127,128,129,256,257,300 sources (cycled) with optional 1/2/130 bases; 30% of the profiles have another set or order of sample types ([v n], [v], [x v] instead of [n v]) so that only v is common; failing subset in {none, one, first, last, all-but-one, a whole 128-chunk, all, random} x failure kind per source in {Fetcher error, structurally invalid profile, missing file, HTTP 404, HTTP 500, garbage body}; every fetch blocks at a gate and the controller releases the members of each concurrently fetched chunk one by one in a seed-chosen permutation (completion order forced exactly, no sleeps; arrival/release/completion events recorded); 3-6 different completion orders per case. " +
 			"oracle: fails iff no source (or, with bases, no base) succeeded; exactly one UI error line per failed source naming it and none for good ones; byte-identical -traces across completion orders; -traces equal to the run listing only the successful sources; -top equal to the entry-wise signed sum of the successful profiles' reference reports. non-trivial = at least 2 sources; distinct = run description; distinct_observed = distinct release-order prefixes",
 		Assumptions:   []string{"failing subsets and kinds are enumerated per list shape; completion orders are sampled (3-6 of n! per chunk)"},
 		Parts:         []harness.Part{{Name: "fetch", Quick: 400, Thor: 12000, Run: run}},
